@@ -30,6 +30,12 @@ import PromModel.Prelude.Line
 
   Level B (`World`): what the harness drives — sets keyed by position, loops keyed by endpoint, the
   per-URL metric rows (shared by successive loops of one URL), requests parked at the harness gate.
+  The harness has two gates for the loop goroutine, both inside the `sending b` state of Level A (between
+  `take` and `result`): the request gate (`Options.Do`, after the batch was JSON-encoded: `Eff.arrive`) and,
+  on demand (`LoopW.armed`), the pause point "notifier.batchTaken" between `nextBatch()` and `sendAll()`:
+  the goroutine then stays in `sending b` *without* the request having been built (`LoopW.pre`), other
+  actions (`add`, `stop`, the drain) run, and `arrive b` happens when the harness lets it continue
+  (`World.unpark`). So the schedules `take; add…; result` are realised with the adds before the encoding.
 -/
 namespace Prom.SendLoop
 
@@ -192,6 +198,8 @@ structure LoopW where
   gen : Nat
   e : Nat
   loop : Loop
+  armed : Bool := false               -- the next `take` parks the goroutine before the batch is encoded
+  pre : Option (List Nat) := none     -- parked there with this batch: its `arrive` is still to come
 deriving Repr, Inhabited
 
 structure SetW where
@@ -247,16 +255,27 @@ def World.applyEff (w : World) (nm : String) (gen : Nat) : Eff → World
 def World.applyEffs (w : World) (nm : String) (gen : Nat) (effs : List Eff) : World :=
   effs.foldl (fun w e => w.applyEff nm gen e) w
 
-/-- Apply an action of loop `l` (named `nm`); a disabled action leaves everything unchanged. -/
+def Eff.arriveBatch : Eff → Option (List Nat)
+  | .arrive b => some b
+  | _ => none
+
+/-- Apply an action of loop `l` (named `nm`); a disabled action leaves everything unchanged. The `take` of an
+    armed loop parks the goroutine before the encoding: every effect but `arrive` happens now. -/
 def actW (w : World) (nm : String) (l : LoopW) (a : Act) : World × LoopW :=
   match step w.c l.loop a with
-  | some (s', effs) => (w.applyEffs nm l.gen effs, { l with loop := s' })
+  | some (s', effs) =>
+    if a = .take ∧ l.armed then
+      (w.applyEffs nm l.gen (effs.filter fun e => e.arriveBatch.isNone),
+       { l with loop := s', armed := false, pre := some ((effs.findSome? Eff.arriveBatch).getD []) })
+    else (w.applyEffs nm l.gen effs, { l with loop := s' })
   | none => (w, l)
 
-/-- Let the loop goroutine run until it blocks: parked with a request, or idle without work, or exited. -/
+/-- Let the loop goroutine run until it blocks: parked before the encoding, or parked with a request, or idle
+    without work, or exited. -/
 def settle (w : World) (nm : String) (l : LoopW) : Nat → World × LoopW
   | 0 => (w, l)
   | fuel + 1 =>
+    if l.pre.isSome then (w, l) else
     match l.loop.pc with
     | .idle =>
       if l.loop.stopped then actW w nm l .exit
@@ -298,7 +317,7 @@ def stopLoop (w : World) (nm : String) (l : LoopW) (pat : List Char) : World :=
   let (w, l) := settle w nm l settleFuel
   match l.loop.pc with
   | .sending _ => { w with zombies := w.zombies ++ [(nm, l)] }
-  | _ => w
+  | _ => if l.pre.isSome then { w with zombies := w.zombies ++ [(nm, l)] } else w
 
 /-- Replace the loop with generation `gen` wherever it lives (a set or the zombie list). -/
 def World.putLoop (w : World) (l : LoopW) : World :=
@@ -350,7 +369,7 @@ def World.sync (w : World) (pos : Nat) (es : List Nat) (pat : List Char) : World
       if st.loops.any (·.e == e) then (w, st)
       else
         let w := w.initRow (nameOf st.tag e)
-        ({ w with nextGen := w.nextGen + 1 }, { st with loops := st.loops ++ [⟨w.nextGen, e, {}⟩] }))
+        ({ w with nextGen := w.nextGen + 1 }, { st with loops := st.loops ++ [{ gen := w.nextGen, e := e, loop := {} }] }))
       (w, { st with ams := ams })
     let (w, st) := cleanLoops w st ((dedupNat prev).filter fun e => !ams.contains e) pat
     { w with sets := w.sets.set pos st }
@@ -392,5 +411,33 @@ def World.release (w : World) (nm : String) (k : Nat) (v : Verdict) : World × O
       let w := w.putLoop l
       -- a zombie whose goroutine has exited is forgotten
       ({ w with zombies := w.zombies.filter fun z => z.2.loop.pc != .exited }, some h.batch)
+
+/-- The loops of URL `nm`, running or not, with their names. -/
+def World.loopsNamed (w : World) (nm : String) : List LoopW :=
+  (w.zombies.filter (·.1 == nm)).map (·.2) ++
+  (w.sets.flatMap fun st => st.loops.filter fun l => nameOf st.tag l.e == nm)
+
+def World.runningLoop (w : World) (nm : String) : Option LoopW :=
+  (w.sets.flatMap fun st => st.loops.filter fun l => nameOf st.tag l.e == nm).head?
+
+/-- Arm the second gate for the running loop of URL `nm`: its next `take` parks before the encoding. Refused
+    if the manager is stopped, nothing can ever be queued (capacity 0: only empty takes), no such loop runs,
+    it is armed already, or a goroutine of that URL is still parked there. -/
+def World.park (w : World) (nm : String) : World × Bool :=
+  if w.stopped || w.c.cap == 0 || (w.loopsNamed nm).any (·.pre.isSome) then (w, false) else
+  match w.runningLoop nm with
+  | none => (w, false)
+  | some l => if l.armed then (w, false) else (w.putLoop { l with armed := true }, true)
+
+/-- Let the goroutine of URL `nm` parked before the encoding continue: its request arrives at the request gate. -/
+def World.unpark (w : World) (nm : String) : World × Option (List Nat) :=
+  match (w.loopsNamed nm).find? (·.pre.isSome) with
+  | none => (w, none)
+  | some l =>
+    let b := l.pre.getD []
+    let w := if b.isEmpty then w else w.applyEff nm l.gen (.arrive b)
+    let (w, l) := settle w nm { l with pre := none } settleFuel
+    let w := w.putLoop l
+    ({ w with zombies := w.zombies.filter fun z => z.2.loop.pc != .exited }, some b)
 
 end Prom.SendLoop
